@@ -225,6 +225,16 @@ def run (ctx):
       ctx.ob('R-AGREE', op, "tx_packets grows by one per emitted frame", isinstance(st.op, ast.Add) and norm(st.value) == '1' and 'port_stats[port_no]' in tgt_text(st.target), norm(st), (swmod, st), 'D2')
     else:
       ctx.ob('R-AGREE', op, "tx_bytes grows by the emitted frame's length", isinstance(st.op, ast.Add) and norm(st.value) in ('len(packet.pack())', 'len(packet)') and 'port_stats[port_no]' in tgt_text(st.target), norm(st), (swmod, st), 'D2')
+      if norm(st.value) == 'len(packet)':
+        # len() of a packet object is the length of its serialisation only while packet_base.__len__ says so: the actions have
+        # rewritten the headers in place, the bytes the frame was parsed from (`raw`) are stale
+        pb_ = repo.cls('lib.packet.packet_base', 'packet_base'); ln_ = pb_.methods.get('__len__') if pb_ is not None else None
+        if ln_ is not None:
+          ctx.analysed(ln_)
+          rets_ = [r_ for r_ in q.returns_of(ln_.node) if r_.value is not None]
+          stale_ = [r_ for r_ in rets_ if any(isinstance(x, ast.Attribute) and x.attr == 'raw' for x in ast.walk(r_.value))]
+          ctx.ob('R-AGREE', ln_, "len(packet) is the length of what pack() emits", bool(rets_) and not stale_, "len(self.pack())" if rets_ and not stale_ else
+                 "`%s` measures the bytes the frame was parsed from, not the frame as the actions left it: after a VLAN push/strip the transmit byte counter is off by the tag's four bytes on every port the frame is sent to" % norm(stale_[0]) if stale_ else "no return", (ln_.module, (stale_ or rets_ or [ln_.node])[0]), 'D2')
 
   # ---- D7 virtual ports --------------------------------------------------------
   g = q.cfg_of(op)
